@@ -533,3 +533,99 @@ func TestC08StaleProposalsAfterReorg(t *testing.T) {
 		return map[string]interface{}{"schedule": s.hist, "nodes that switched to the private branch": switched, "final LIBs": fmt.Sprint(s.libNo)}
 	})
 }
+
+// TestC08FailedReorg: a longer branch whose LAST block is invalid. The reorganisation executes the valid blocks of
+// the branch (each one updates the finality status), fails at the last one and the node stays on its chain. Generated:
+// number of producers, length of the main chain (all by one producer, so that nothing is irreversible on it), fork
+// point, length of the branch (by the other producers in turn, long enough for a block of the branch to become
+// irreversible within the branch). Afterwards every node must report a LIB that lies on its own main chain (observe),
+// and when the branch is completed by a valid block instead and extended, it must be adopted (fork choice).
+func TestC08FailedReorg(t *testing.T) {
+	rec := ev.New("C08", "failed-reorg")
+	defer rec.Flush()
+	rapid.Check(t, func(t *rapid.T) {
+		n := rapid.IntRange(3, 5).Draw(t, "producers")
+		// (the fork-choice clause for the valid PREFIX of the invalid branch is C07's recorded finding; here only
+		// finality is judged while the invalid branch is around, and adoption of the completed branch at the end)
+		s := newSim(t, n, true, false)
+		defer s.close()
+		gen := s.nodes[0].Best()
+		cur := -1
+		next := func(k int) int64 {
+			for cur++; s.ownerOf(cur) != k; cur++ {
+			}
+			return slotTime(cur)
+		}
+		all := func(b *types.Block, what string) {
+			s.hist = append(s.hist, what)
+			for x := range s.nodes {
+				s.deliver(x, b, fmt.Sprintf("%s to node %d", what, x))
+			}
+		}
+		m := rapid.IntRange(2, 5).Draw(t, "mainLen")
+		loner := n - 1
+		mainChain := []*types.Block{gen}
+		for i := 1; i <= m; i++ {
+			b := s.mkBlock(loner, s.nodes[loner], mainChain[i-1], next(loner), uint64(i-1))
+			mainChain = append(mainChain, b)
+			all(b, fmt.Sprintf("p%d->%d", loner, i))
+		}
+		fork := rapid.IntRange(0, m-1).Draw(t, "forkAt")
+		extra := rapid.IntRange(1, 2*n).Draw(t, "branchExtra")
+		blen := m - fork + extra
+		last := map[int]uint64{}
+		prev := mainChain[fork]
+		var branch []*types.Block
+		for i := 0; i < blen; i++ {
+			k := i % (n - 1) // the other producers in turn
+			b := s.mkBlock(k, s.nodes[k], prev, next(k), last[k])
+			last[k] = b.BlockNo()
+			branch = append(branch, b)
+			prev = b
+		}
+		// the last block of the branch is invalid (wrong state root, properly signed)
+		good := branch[blen-1]
+		bad := vnode.WithStateRootFlipped(good)
+		kbad := (blen - 1) % (n - 1)
+		if err := bad.Sign(vnode.BPN(kbad).Priv); err != nil {
+			t.Fatal(err)
+		}
+		bad.Hash = nil
+		bad.Hash = bad.BlockHash()
+		hb := string(bad.BlockHash())
+		s.parent[hb], s.height[hb], s.signer[hb] = string(bad.GetHeader().GetPrevBlockHash()), bad.BlockNo(), kbad
+		// the branch arrives in one piece: children first (they wait as orphans), its first block last, so that the
+		// reorganisation is attempted with the whole branch, invalid tip included
+		if blen >= 2 {
+			all(bad, fmt.Sprintf("p%d->%d' INVALID (wrong state root), parent not yet known", kbad, bad.BlockNo()))
+			for i := blen - 2; i >= 0; i-- {
+				all(branch[i], fmt.Sprintf("p%d->%d' (branch from %d)", i%(n-1), branch[i].BlockNo(), fork))
+			}
+		} else {
+			all(bad, fmt.Sprintf("p%d->%d' INVALID (wrong state root)", kbad, bad.BlockNo()))
+		}
+		for x, nd := range s.nodes {
+			if !bytes.Equal(nd.Best().BlockHash(), mainChain[m].BlockHash()) && nd.Best().BlockNo() >= bad.BlockNo() {
+				t.Fatalf("harness: node %d adopted the invalid block", x)
+			}
+		}
+		// the honest block instead of the invalid one, and one more on top of it
+		all(good, fmt.Sprintf("p%d->%d' (valid block in place of the invalid one)", kbad, good.BlockNo()))
+		k := blen % (n - 1)
+		top := s.mkBlock(k, s.nodes[k], good, next(k), last[k])
+		all(top, fmt.Sprintf("p%d->%d'", k, top.BlockNo()))
+		adopted := 0
+		for x, nd := range s.nodes {
+			if bytes.Equal(nd.Best().BlockHash(), top.BlockHash()) {
+				adopted++
+			} else {
+				// nothing on the loner's chain ever was irreversible, so the completed, valid, longer branch cannot be vetoed
+				no, id := nd.DPoS.VerifLIB()
+				s.fail("node %d did not adopt the completed valid branch up to %d (its best block is %d, it reports LIB %d/%s)", x, top.BlockNo(), nd.Best().BlockNo(), no, id)
+			}
+		}
+		rec.Case(fmt.Sprintf("n=%d", n), fmt.Sprintf("%d|%s", n, strings.Join(s.hist, "|")), s.libAdvances > 0, func() interface{} {
+			return map[string]interface{}{"schedule": s.hist, "nodes on the completed branch": adopted, "final LIBs": fmt.Sprint(s.libNo)}
+		})
+	})
+}
